@@ -69,7 +69,7 @@ pub fn check(v: &View, vd: &mut Verdict) {
         if overlapping {
             continue;
         }
-        for o in ops {
+        for (idx, o) in ops.iter().enumerate() {
             let OpWhat::Reg(rop, _) = o.what else { continue };
             let Some(OpRes::Reg(res)) = &o.res else { break };
             let dead_reg = reg.filter(|x| v.dead_from(*x) < o.begin);
@@ -97,7 +97,21 @@ pub fn check(v: &View, vd: &mut Verdict) {
                     }
                 }
                 (RegOp::Setup, _) => {
-                    // cannot observe which instance is registered now
+                    // setup() over a terminated entry respawns the service: the next (sequential) registry
+                    // operation finds a running one.  Which instance is registered now cannot be observed.
+                    if let (Some(x), Some(next)) = (dead_reg, ops.get(idx + 1)) {
+                        let bad = match (&next.what, &next.res) {
+                            (OpWhat::Reg(RegOp::AlreadyRunning, _), Some(OpRes::Reg(RegRes::Running(r)))) => *r != Some(true),
+                            (OpWhat::Reg(RegOp::TryFromRegistry, _), Some(OpRes::Reg(RegRes::TryGot(g)))) => g.is_none(),
+                            _ => false,
+                        };
+                        if bad {
+                            vd.fail(
+                                format!("C14/setup_no_respawn/awaited={}", !unawaited),
+                                format!("service kind {kind}: the registered instance {x} ended at {}, setup() at {} completed, yet the next operation at {} got {:?}", v.dead_from(x), o.begin, next.begin, next.res),
+                            );
+                        }
+                    }
                     break;
                 }
                 (RegOp::TryFromRegistry, RegRes::TryGot(got)) => {
